@@ -100,6 +100,18 @@ def select_cases():
         for mm in ("P", "Q", "Nope"):
             for cli in (None, 0, 1, 1 << 40, (1 << 40) + 1, -1):
                 yield dict(space="select", struct="-", sections=base, system_config=sc, memory_mode=mm, cli=cli)
+    # one of the two selections left at internal-default (documented to map to the example file's Client-Server / High-End-Embedded systems and
+    # Dedicated_Sram / Shared_Sram memory modes); the file's other section may or may not be compatible with it
+    for axi1 in ("Dram", "OffChipFlash", "OnChipFlash", "Sram"):
+        secs = dict(base)
+        secs["System_Config.A"] = dict(core_clock="1e6", axi0_port="Sram", axi1_port=axi1, Sram_clock_scale="0.5", Dram_read_latency="77")
+        for cli in (None, 0, 4096):
+            yield dict(space="select", struct="default-mem|axi1=%s" % axi1, sections=secs, system_config="A", memory_mode="internal-default", cli=cli)
+            yield dict(space="select", struct="default-mem|inherited-axi1=%s" % axi1, sections=secs, system_config="B", memory_mode="internal-default", cli=cli)
+    for mm in ("P", "Q"):
+        for cli in (None, 4096):
+            yield dict(space="select", struct="default-sys", sections=base, system_config="internal-default", memory_mode=mm, cli=cli)
+    yield dict(space="select", struct="default-both", sections=base, system_config="internal-default", memory_mode="internal-default", cli=None)
     bad = dict(base)
     bad["System_Config.A"] = dict(core_clock="1e6", axi0_port="Sram", axi1_port="Flash")
     yield dict(space="select", struct="bad-enum", sections=bad, system_config="A", memory_mode="P", cli=None)
@@ -128,7 +140,7 @@ def compare(case, acc, path):
     """Returns None or a description of the disagreement."""
     cli = case.get("cli")
     try:
-        exp = M.resolve(case["sections"], acc, case["system_config"], case["memory_mode"], cli)
+        exp = M.resolve(case["sections"], acc, case["system_config"], case["memory_mode"], cli, default_sys=M.documented_default_sys(acc), default_mem=M.documented_default_mem(acc))
         exp_err = None
     except M.ConfigError as e:
         exp, exp_err = None, str(e)
